@@ -135,7 +135,9 @@ class FEval(Evaluator):
         if sorted(arms) != ["One", "Two", "_"] or len(arms["One"][0]) != 1 or len(arms["Two"][0]) != 2:
             self.fail(f"root match arms {sorted(arms)} (expected One([n]), Two([n1, n2]), _)", m)
         one, two, no = arms["One"], arms["Two"], arms["_"]
-        return R(f"(match find_roots_quadratic_monic {args[1]} {args[2]} with\n"
+        # the solver's answer is kept as a separate argument (`@ROOTS@`) so that theorems can quantify over it
+        self.roots_scrutinee = f"(find_roots_quadratic_monic {args[1]} {args[2]})"
+        return R("(match @ROOTS@ with\n"
                  f"   | RootsNo => {no[1]}\n"
                  f"   | RootsOne {one[0][0]} => {one[1]}\n"
                  f"   | RootsTwo {two[0][0]} {two[0][1]} => {two[1]}\n   end)")
@@ -190,6 +192,7 @@ def gen_fresnel(repo, out):
     if pnames != ["self", "vacuum_wavelength", "direction", "polarization"]:
         raise Untranslatable(cs_path, it.span[0], f"index_along parameters {pnames}")
     cores = {}
+    scrut = {}
     for pol in ("Ordinary", "Extraordinary"):
         ev = FEval(cs_path, cs_items, allidx)
         ev.frame_args = []
@@ -200,13 +203,22 @@ def gen_fresnel(repo, out):
             raise Untranslatable(cs_path, it.span[0], "index_along does not rotate exactly its `direction` argument once")
         cores[pol] = val
         coeffs = ev.roots_args
+        scrut[pol] = ev.roots_scrutinee
     body.append(f"Definition index_along_b_gen (nx ny nz sx sy sz : R) : R :=\n  {coeffs[0]}.\n")
     body.append(f"Definition index_along_c_gen (nx ny nz sx sy sz : R) : R :=\n  {coeffs[1]}.\n")
     for pol, val in cores.items():
-        body.append(f"Definition index_along_core_{pol} (nx ny nz sx sy sz : R) : R :=\n  {val}.\n")
+        if val.count("@ROOTS@") != 1:
+            raise Untranslatable(cs_path, it.span[0], "index_along: the root match is not the whole result")
+        body.append("(* r: what roots::find_roots_quadratic(1, b, c) answered *)\n"
+                    f"Definition index_along_core_{pol}_of (r : roots) (nx ny nz sx sy sz : R) : R :=\n  {val.replace('@ROOTS@', 'r')}.\n")
+        body.append(f"Definition index_along_core_{pol} (nx ny nz sx sy sz : R) : R :=\n"
+                    f"  index_along_core_{pol}_of {scrut[pol]} nx ny nz sx sy sz.\n")
     body.append("Definition index_along_core_gen (p : polarization) (nx ny nz sx sy sz : R) : R :=\n"
                 "  match p with\n  | Ordinary => index_along_core_Ordinary nx ny nz sx sy sz\n"
                 "  | Extraordinary => index_along_core_Extraordinary nx ny nz sx sy sz\n  end.\n")
+    body.append("Definition index_along_core_of_gen (r : roots) (p : polarization) (nx ny nz sx sy sz : R) : R :=\n"
+                "  match p with\n  | Ordinary => index_along_core_Ordinary_of r nx ny nz sx sy sz\n"
+                "  | Extraordinary => index_along_core_Extraordinary_of r nx ny nz sx sy sz\n  end.\n")
     body.append("Definition index_along_gen (theta phi nx ny nz : R) (direction : vec) (p : polarization) : R :=\n"
                 "  let s := to_crystal_frame_gen theta phi direction in index_along_core_gen p nx ny nz (vx s) (vy s) (vz s).\n")
 
